@@ -265,7 +265,7 @@ func TestEnumTree(t *testing.T) {
 func TestEnumUC(t *testing.T) {
 	shard, n := stats.Shard()
 	maxSigs := 4
-	keyKinds := []UKey{{A: "ed", I: 0}, {A: "ed", I: 1}, {A: "unknown", I: 1, L: 7}, {A: "ent", I: 2, L: 32}}
+	keyKinds := []UKey{{A: "ed", I: 0}, {A: "ed", I: 1}, {A: "unknown", I: 1, L: 7}, {A: "ent", I: 2, L: 32}, {A: "ed", I: 1, L: -1}}
 	sigKinds := []SigSpec{{K: 0}, {K: 1}, {K: 2}, {K: 0, F: 9}, {K: 0, W: 1}}
 	var policies, cases uint64
 	i := 0
